@@ -65,7 +65,7 @@ def find_aliases(raw):
     cands = []
     for m, fm in missing.items():
         for e, fe in extra.items():
-            if fm['ret'] != fe['ret'] or fm['kind'] != fe['kind'] or len(fm['args']) != len(fe['args']):
+            if fm['ret'] != fe['ret'] or fm['kind'] != fe['kind']:
                 continue
             s = _sim(fm['callees'], fe['callees'])
             if fm['args'] != fe['args']:
